@@ -155,7 +155,14 @@ pub fn tcase_strategy(_tier: Tier) -> BoxedStrategy<TCase> {
             let thr = if total == 0 { thr_strategy(1, 3).prop_filter("count invalid for empty group", |t| !matches!(t, Thr::Count(_))).boxed() } else { thr_strategy(total, 3) };
             (Just(total), thr, proptest::array::uniform5(0u8..=8), mode_strategy(), prop_oneof![3 => Just(When::Before), 1 => Just(When::AtExpiry), 2 => Just(When::After)], proptest::collection::vec(proptest::array::uniform4(0u16..=400), 0..4))
         })
-        .prop_map(|(total, thr, r, mode, when, completions)| TCase { thr, total, tally: make_tally(thr, total, r, mode), when, completions })
+        .prop_map(|(total, thr, r, mode, when, completions)| {
+            // 1 in 32 count thresholds is pushed above the total (unreachable count)
+            let thr = match thr {
+                Thr::Count(w) if r[4] == 8 && r[0] % 4 == 0 && total < u64::MAX - 10 => Thr::Count(total + 1 + (w % 10)),
+                t => t,
+            };
+            TCase { thr, total, tally: make_tally(thr, total, r, mode), when, completions }
+        })
         .boxed()
 }
 
@@ -196,16 +203,29 @@ pub fn run_tcase(c: &TCase, ctx: &mut CaseCtx) -> Result<(), Violation> {
         ctx.count("out_of_domain");
         return Ok(());
     }
-    if let Thr::Count(w) = thr {
-        if w == 0 || w > total {
-            ctx.count("out_of_domain");
-            return Ok(());
-        }
-    }
     let p = build_proposal(thr, total, &tally, Status::Open);
     let b = block(when);
     let expired = when != When::Before;
     let desc = format!("{:?} total={} tally={:?} {:?}", thr, total, tally, when);
+    if let Thr::Count(w) = thr {
+        if w == 0 {
+            ctx.count("out_of_domain");
+            return Ok(());
+        }
+        if w > total {
+            // a count no tally can reach (Threshold::validate refuses it at instantiation, but a group can
+            // shrink below it later): the formula still applies - it can never pass. is_rejected /
+            // current_status subtract the count from the total and may abort here; only is_passed is judged.
+            ctx.count("count_above_total");
+            if let Ok(true) = catch_unwind(AssertUnwindSafe(|| p.is_passed(&b))) {
+                return Err(v("unreachable-count-passed", format!("is_passed is true although the required count exceeds everything the tally can hold: {desc}")));
+            }
+            if let Ok(Status::Passed) = catch_unwind(AssertUnwindSafe(|| p.current_status(&b))) {
+                return Err(v("unreachable-count-passed", format!("current_status is Passed although the required count exceeds the total weight: {desc}")));
+            }
+            return Ok(());
+        }
+    }
 
     let lib = catch_unwind(AssertUnwindSafe(|| (p.is_passed(&b), p.is_rejected(&b), p.current_status(&b))));
     let (lib_pass, lib_rej, cur) = match lib {
@@ -404,7 +424,13 @@ pub fn decode_tcase(u: &mut arbitrary::Unstructured) -> TCase {
     let thr = match arb_below(u, if total == 0 { 2 } else { 3 }) {
         0 => Thr::Pct(pct(u, ONE / 2)),
         1 => Thr::Quorum { threshold: pct(u, ONE / 2), quorum: pct(u, 0) },
-        _ => Thr::Count(1 + (u.arbitrary::<u64>().unwrap_or(0) % total)),
+        _ => {
+            if arb_below(u, 16) == 0 && total < u64::MAX - 10 {
+                Thr::Count(total + 1 + arb_below(u, 10) as u64)
+            } else {
+                Thr::Count(1 + (u.arbitrary::<u64>().unwrap_or(0) % total))
+            }
+        }
     };
     let mut r = [0u8; 5];
     for x in r.iter_mut() {
